@@ -1,6 +1,8 @@
-// extract-C09: the RunIdFacts record (which id every newFrame site passes, the runCfg guards, stop,
-// the root-id refresh of Execute, the ctx.Done() arm of the watchers, the blocking channel generators)
-// and the fingerprints of the small functions Model/RunId.lean transcribes.
+// extract-C09: the RunIdFacts record (which id and which done channel every frame-making site takes — through
+// newFrame or newCallFrame —, the runCfg guards, stop (bump, close, renew), the two root-id refreshes of Execute and
+// the one of importSrc, where cancelChan is set, the ctx.Done() arm of the watchers, the blocking channel generators,
+// the store-after-check shape of recv, the epilogue of getFunc's wrapper) and the fingerprints of the small
+// functions Model/RunId.lean transcribes.
 package main
 
 import (
